@@ -37,7 +37,10 @@ where
 {
     set_budget(2);
     let Ok(x) = Bump::<VA, St>::try_new() else { return None };
-    let Ok(y) = Bump::<VA, St>::try_new() else { return None };
+    let Ok(y) = Bump::<VA, St>::try_new() else {
+        core::mem::forget(x);
+        return None;
+    };
     set_budget(0);
     // the same symbolic filler on both => identical, arbitrary pre-states
     let lf = any_layout(9, 3);
@@ -53,6 +56,7 @@ where
     VA: BaseAllocator<St::GuaranteedAllocated>,
 {
     let Some((x, y)) = two::<St>() else { return };
+    let (x, mut y) = (core::mem::ManuallyDrop::new(x), core::mem::ManuallyDrop::new(y));
     let rx = x.try_alloc_uninit::<T>().ok().map(|b| addr(b.into_raw().cast()));
     let ry = y.allocate(Layout::new::<T>()).ok().map(|p| addr(p.cast()));
     kani::cover!(rx.is_some(), "fits");
@@ -62,8 +66,6 @@ where
     let rx2 = x.try_allocate_sized::<T>().ok().map(|p| addr(p.cast()));
     let ry2 = y.try_allocate_layout(Layout::new::<T>()).ok().map(|p| addr(p));
     assert_same(&observe(&x, rx2), &observe(&y, ry2));
-    core::mem::forget(x);
-    core::mem::forget(y);
     kani::cover!(true, "END: harness ran to completion");
 }
 
@@ -73,6 +75,7 @@ where
     VA: BaseAllocator<St::GuaranteedAllocated>,
 {
     let Some((x, y)) = two::<St>() else { return };
+    let (x, mut y) = (core::mem::ManuallyDrop::new(x), core::mem::ManuallyDrop::new(y));
     let n: usize = kani::any();
     let rx = x.try_alloc_uninit_slice::<T>(n).ok().map(|b| (addr(b.as_non_null().cast()), b.len()));
     let ry = match Layout::array::<T>(n) {
@@ -90,8 +93,6 @@ where
     } else {
         assert!(x.stats().allocated() == y.stats().allocated(), "C17: empty slice changed the allocated byte count");
     }
-    core::mem::forget(x);
-    core::mem::forget(y);
     kani::cover!(true, "END: harness ran to completion");
 }
 
@@ -100,24 +101,25 @@ fn handles<St: BumpAllocatorSettings>()
 where
     VA: BaseAllocator<St::GuaranteedAllocated>,
 {
-    let Some((x, mut y)) = two::<St>() else { return };
+    let Some((x, y)) = two::<St>() else { return };
+    let (x, mut y) = (core::mem::ManuallyDrop::new(x), core::mem::ManuallyDrop::new(y));
     let l = any_layout(12, 4);
     let which: u8 = kani::any();
     kani::assume(which < 6);
     let rx = x.allocate(l).ok().map(|p| addr(p.cast()));
     let ry = match which {
         0 => y.as_scope().allocate(l).ok().map(|p| addr(p.cast())),
-        1 => (&mut y).allocate(l).ok().map(|p| addr(p.cast())),
+        1 => (&mut *y).allocate(l).ok().map(|p| addr(p.cast())),
         2 => {
-            let d: &dyn BumpAllocatorCore = &y;
+            let d: &dyn BumpAllocatorCore = &*y;
             d.allocate(l).ok().map(|p| addr(p.cast()))
         }
         3 => {
-            let d: &dyn BumpAllocatorCore = &y;
+            let d: &dyn BumpAllocatorCore = &*y;
             d.try_allocate_layout(l).ok().map(|p| addr(p))
         }
         4 => {
-            let d: &mut dyn MutBumpAllocatorCore = &mut y;
+            let d: &mut dyn MutBumpAllocatorCore = &mut *y;
             d.try_allocate_layout(l).ok().map(|p| addr(p))
         }
         _ => y.scoped(|s| s.allocate(l).ok().map(|p| addr(p.cast()))),
@@ -131,8 +133,6 @@ where
         oy.allocated = ox.allocated;
     }
     assert_same(&ox, &oy);
-    core::mem::forget(x);
-    core::mem::forget(y);
     kani::cover!(true, "END: harness ran to completion");
 }
 
@@ -142,7 +142,7 @@ where
     VA: BaseAllocator<St::GuaranteedAllocated>,
 {
     let Some((x, y)) = two::<St>() else { return };
-    let (x, y) = (core::mem::ManuallyDrop::new(x), core::mem::ManuallyDrop::new(y));
+    let (x, mut y) = (core::mem::ManuallyDrop::new(x), core::mem::ManuallyDrop::new(y));
     // a request that fits whatever the filler was: u8
     let v: u8 = kani::any();
     let bx = x.alloc(v);
@@ -154,6 +154,42 @@ where
     assert!(*bx == v && *by == v, "C17: twins stored different values");
     let (ax, ay) = (addr(bx.into_raw().cast()), addr(by.into_raw().cast()));
     assert_same(&observe(&x, Some(ax)), &observe(&y, Some(ay)));
+    kani::cover!(true, "END: harness ran to completion");
+}
+
+/// a BumpVec backed by the typed handle vs. one backed by `&dyn BumpAllocatorCore`: the same pushes and the same
+/// shrink leave the same allocated byte count and the same offsets (settings with DEALLOCATES / SHRINKS opt-outs)
+fn vec_typed_vs_dyn<St: BumpAllocatorSettings>()
+where
+    VA: BaseAllocator<St::GuaranteedAllocated>,
+{
+    let Some((x, y)) = two::<St>() else { return };
+    let (x, y) = (core::mem::ManuallyDrop::new(x), core::mem::ManuallyDrop::new(y));
+    let vals: [u8; 2] = kani::any();
+    let op: u8 = kani::any();
+    kani::assume(op < 2);
+    let dy: &dyn BumpAllocatorCoreScope = y.as_scope();
+    let Ok(mut vx) = bump_scope::BumpVec::<u8, _>::try_with_capacity_in(5, &*x) else { return };
+    let Ok(mut vy) = bump_scope::BumpVec::<u8, _>::try_with_capacity_in(5, dy) else { return };
+    assert!(vx.try_push(vals[0]).is_ok() && vy.try_push(vals[0]).is_ok(), "push within capacity");
+    assert!(vx.try_push(vals[1]).is_ok() && vy.try_push(vals[1]).is_ok(), "push within capacity");
+    let (ax, ay) = if op == 0 {
+        vx.shrink_to_fit();
+        vy.shrink_to_fit();
+        let r = (vx.as_ptr() as usize, vy.as_ptr() as usize);
+        core::mem::forget(vx);
+        core::mem::forget(vy);
+        r
+    } else {
+        let (bx, by) = (vx.into_boxed_slice(), vy.into_boxed_slice());
+        assert!(bx[0] == by[0] && bx[1] == by[1] && bx.len() == by.len(), "C17: entry points produced different contents");
+        let r = (bx.as_ptr() as usize, by.as_ptr() as usize);
+        core::mem::forget(bx);
+        core::mem::forget(by);
+        r
+    };
+    assert_same(&observe(&x, Some(ax)), &observe(&y, Some(ay)));
+    kani::cover!(op == 0, "shrink_to_fit through both entry points");
     kani::cover!(true, "END: harness ran to completion");
 }
 
@@ -180,3 +216,7 @@ h!(entry_handles_up1, handles::<S<1, true>>());
 h!(entry_handles_down8, handles::<S<8, false>>());
 h!(entry_twin_up1, panicking_twin::<S<1, true>>());
 h!(entry_twin_down1, panicking_twin::<S<1, false>>());
+h!(entry_vec_typed_vs_dyn_up1, vec_typed_vs_dyn::<S<1, true>>());
+h!(entry_vec_typed_vs_dyn_nodealloc_up1, vec_typed_vs_dyn::<S<1, true, true, false, true>>());
+h!(entry_vec_typed_vs_dyn_nodealloc_down4, vec_typed_vs_dyn::<S<4, false, true, false, true>>());
+h!(entry_vec_typed_vs_dyn_noshrink_down1, vec_typed_vs_dyn::<S<1, false, true, true, false>>());
